@@ -338,22 +338,9 @@ inline std::string execAny(Interp &in, Services &svc, const std::string &line)
     }
 }
 
-inline std::string runBadArgCase(const std::string &line)
+// the call part of a case, from the state the set-up left in (in, svc)
+inline std::string runCall(Interp &in, Services &svc, const std::string &call)
 {
-    auto bar = line.find('|');
-    if (bar == std::string::npos) {
-        return "ERR(no-call)";
-    }
-    Interp in;
-    Services svc;
-    for (const auto &cmd : splitws(line.substr(0, bar), ';')) {
-        if (!cmd.empty()) {
-            std::string r = execAny(in, svc, cmd);
-            if (r.rfind("ERR", 0) == 0) {
-                return "ERR(setup:" + cmd + ":" + r + ")";
-            }
-        }
-    }
     svc.last = nullptr;
     auto issueText = [](const libcellml::LoggerPtr &l) {
         std::string t;
@@ -371,7 +358,7 @@ inline std::string runBadArgCase(const std::string &line)
     }
     std::string before = fullDump(in);
     size_t slotsBefore = in.slots.size();
-    std::string ret = execAny(in, svc, line.substr(bar + 1));
+    std::string ret = execAny(in, svc, call);
     // objects a call returned are adopted into new slots: leave them out of the comparison
     in.slots.resize(slotsBefore);
     std::string after = fullDump(in);
@@ -389,6 +376,34 @@ inline std::string runBadArgCase(const std::string &line)
     return ret + " " + (before == after ? "same" : "CHANGED") + " issues=" + issues;
 }
 
+inline std::string runSetup(Interp &in, Services &svc, const std::string &setup)
+{
+    for (const auto &cmd : splitws(setup, ';')) {
+        if (!cmd.empty()) {
+            std::string r = execAny(in, svc, cmd);
+            if (r.rfind("ERR", 0) == 0) {
+                return "ERR(setup:" + cmd + ":" + r + ")";
+            }
+        }
+    }
+    return "";
+}
+
+inline std::string runBadArgCase(const std::string &line)
+{
+    auto bar = line.find('|');
+    if (bar == std::string::npos) {
+        return "ERR(no-call)";
+    }
+    Interp in;
+    Services svc;
+    std::string e = runSetup(in, svc, line.substr(0, bar));
+    if (!e.empty()) {
+        return e;
+    }
+    return runCall(in, svc, line.substr(bar + 1));
+}
+
 inline std::vector<std::string> listCommands()
 {
     std::vector<std::string> out;
@@ -398,9 +413,98 @@ inline std::vector<std::string> listCommands()
     return out;
 }
 
+// Consecutive cases with the same set-up share it: a group process runs the set-up once and forks one child per call
+// (copy-on-write: every call starts from the same state), so a crash, an ASan report or a hang costs only that call.
 inline int runBadArg(const std::vector<std::string> &lines)
 {
-    return runCases(lines, [](const std::string &c) { return runBadArgCase(c); }, 30, 16);
+    size_t i = 0;
+    const size_t n = lines.size();
+    while (i < n) {
+        auto bar = lines[i].find('|');
+        std::string setup = bar == std::string::npos ? std::string() : lines[i].substr(0, bar);
+        size_t j = i;
+        while (j < n && lines[j].compare(0, setup.size() + 1, setup + "|") == 0) {
+            ++j;
+        }
+        if (j == i) {
+            printf("ERR(no-call)\n");
+            ++i;
+            continue;
+        }
+        fflush(stdout);
+        pid_t group = fork();
+        if (group == 0) {
+            struct rlimit rl;
+            rl.rlim_cur = rl.rlim_max = 16 * 1024 * 1024;
+            setrlimit(RLIMIT_STACK, &rl);
+            Interp in;
+            Services svc;
+            alarm(120);
+            std::string e = runSetup(in, svc, setup);
+            alarm(0);
+            for (size_t k = i; k < j; ++k) {
+                if (!e.empty()) {
+                    printf("%s\n", e.c_str());
+                    continue;
+                }
+                int fds[2];
+                if (pipe(fds) != 0) {
+                    _exit(3);
+                }
+                fflush(stdout);
+                pid_t c = fork();
+                if (c == 0) {
+                    close(fds[0]);
+                    alarm(30);
+                    std::string r;
+                    try {
+                        r = runCall(in, svc, lines[k].substr(setup.size() + 1));
+                    } catch (const std::exception &ex) {
+                        r = std::string("THROW(") + typeid(ex).name() + ")";
+                    } catch (...) {
+                        r = "THROW(unknown)";
+                    }
+                    r += "\n";
+                    ssize_t w = write(fds[1], r.data(), r.size());
+                    (void)w;
+                    _exit(0);
+                }
+                close(fds[1]);
+                std::string got;
+                char buf[4096];
+                ssize_t m;
+                while ((m = read(fds[0], buf, sizeof buf)) > 0) {
+                    got.append(buf, size_t(m));
+                }
+                close(fds[0]);
+                int status = 0;
+                waitpid(c, &status, 0);
+                if (!got.empty() && got.back() == '\n') {
+                    fputs(got.c_str(), stdout);
+                } else if (WIFSIGNALED(status)) {
+                    if (WTERMSIG(status) == SIGALRM) {
+                        printf("TIMEOUT\n");
+                    } else {
+                        printf("CRASH(%d)\n", WTERMSIG(status));
+                    }
+                } else {
+                    printf("CRASH(exit%d)\n", WEXITSTATUS(status));
+                }
+            }
+            fflush(stdout);
+            _exit(0);
+        }
+        int status = 0;
+        waitpid(group, &status, 0);
+        if (!(WIFEXITED(status) && WEXITSTATUS(status) == 0)) {
+            // the set-up itself died: run the cases of the group one by one so that each gets its own line
+            std::vector<std::string> part(lines.begin() + long(i), lines.begin() + long(j));
+            runCases(part, [](const std::string &c) { return runBadArgCase(c); }, 60, 16);
+        }
+        i = j;
+    }
+    fflush(stdout);
+    return 0;
 }
 
 } // namespace c09
